@@ -13,6 +13,8 @@ EXTENDS Naturals, FiniteSets, TLC
 CONSTANTS Inst, MaxFiles, ReloadOnAcquire,
           AtomicReload,   \* TRUE (code): the list is read and installed in one critical section of the instance's
                           \* managed-paths lock | FALSE (first version of the repair): read, then install
+          ReloadUnderLock,\* TRUE (code): the list is read once the writer lock is held | FALSE (seeded C10-s22): it is read
+                          \* before the lock is asked for - at any time while another instance may still hold it
           MaxZombie       \* files a merge thread that outlived its writer may still register and create (same instance)
 
 VARIABLES
@@ -23,26 +25,34 @@ VARIABLES
   living,    \* files of the committed segments (what meta.json references)
   nextF,
   tmp,       \* instance in the middle of a non-atomic reload -> the list it has read (else not in DOMAIN)
-  zleft      \* zombie budget
-vars == <<holder, mem, man, exists, living, nextF, tmp, zleft>>
+  zleft,     \* zombie budget
+  pre        \* instance -> the list it read before asking for the lock (ReloadUnderLock = FALSE only)
+vars == <<holder, mem, man, exists, living, nextF, tmp, zleft, pre>>
 
 Init ==
   /\ holder = "none" /\ mem = [i \in Inst |-> {}] /\ man = {} /\ exists = {} /\ living = {} /\ nextF = 1
-  /\ tmp = <<>> /\ zleft = MaxZombie
+  /\ tmp = <<>> /\ zleft = MaxZombie /\ pre = <<>>
 
 \* Index::writer: take the lock (and, since the repair, read the managed list again)
+\* (seeded change only) the list is read before the lock is asked for
+PreRead(i) ==
+  /\ ~ReloadUnderLock /\ holder # i
+  /\ pre' = (i :> man) @@ pre
+  /\ UNCHANGED <<holder, mem, man, exists, living, nextF, tmp, zleft>>
+Fresh(i) == IF ReloadUnderLock THEN man ELSE pre[i]
 Acquire(i) ==
   /\ holder = "none" /\ holder' = i
+  /\ ReloadUnderLock \/ i \in DOMAIN pre
   /\ IF ReloadOnAcquire /\ ~AtomicReload
-     THEN tmp' = (i :> man) /\ UNCHANGED mem               \* the list is read now, installed in a later step
-     ELSE /\ mem' = IF ReloadOnAcquire THEN [mem EXCEPT ![i] = man] ELSE mem
+     THEN tmp' = (i :> Fresh(i)) /\ UNCHANGED mem               \* the list is read now, installed in a later step
+     ELSE /\ mem' = IF ReloadOnAcquire THEN [mem EXCEPT ![i] = Fresh(i)] ELSE mem
           /\ UNCHANGED tmp
-  /\ UNCHANGED <<man, exists, living, nextF, zleft>>
+  /\ UNCHANGED <<man, exists, living, nextF, zleft, pre>>
 Install(i) ==
   /\ i \in DOMAIN tmp
   /\ mem' = [mem EXCEPT ![i] = tmp[i]]
   /\ tmp' = <<>>
-  /\ UNCHANGED <<holder, man, exists, living, nextF, zleft>>
+  /\ UNCHANGED <<holder, man, exists, living, nextF, zleft, pre>>
 
 \* a merge thread of instance i's PREVIOUS writer is still running (drop does not wait for it): it
 \* registers and creates a file of a merged segment that will never be published
@@ -52,7 +62,7 @@ ZombieCreate(i) ==
   /\ man' = mem'[i]
   /\ exists' = exists \cup {nextF}
   /\ nextF' = nextF + 1 /\ zleft' = zleft - 1
-  /\ UNCHANGED <<holder, living, tmp>>
+  /\ UNCHANGED <<holder, living, tmp, pre>>
 
 \* a segment file: registered (list persisted from the in-memory copy), then created; the commit
 \* that makes it live is folded in
@@ -63,13 +73,13 @@ CreateFile(i) ==
   /\ exists' = exists \cup {nextF}
   /\ living' = living \cup {nextF}
   /\ nextF' = nextF + 1
-  /\ UNCHANGED <<holder, tmp, zleft>>
+  /\ UNCHANGED <<holder, tmp, zleft, pre>>
 
 \* a merge or a delete makes some live files garbage
 Obsolete(i) ==
   /\ holder = i
   /\ \E S \in (SUBSET living) \ {{}} : living' = living \ S
-  /\ UNCHANGED <<holder, mem, man, exists, nextF, tmp, zleft>>
+  /\ UNCHANGED <<holder, mem, man, exists, nextF, tmp, zleft, pre>>
 
 \* garbage_collect: delete the managed files that are not living, persist the shortened list
 Collect(i) ==
@@ -78,16 +88,16 @@ Collect(i) ==
      /\ exists' = exists \ dead
      /\ mem' = [mem EXCEPT ![i] = @ \ dead]
      /\ man' = IF dead # {} THEN mem'[i] ELSE man
-  /\ UNCHANGED <<holder, living, nextF, tmp, zleft>>
+  /\ UNCHANGED <<holder, living, nextF, tmp, zleft, pre>>
 
 \* the writer is dropped after a last collection (wait_merging_threads + commit's collection)
 Release(i) ==
   /\ holder = i /\ mem[i] \ living = {} /\ i \notin DOMAIN tmp
   /\ holder' = "none"
   /\ zleft' = MaxZombie
-  /\ UNCHANGED <<mem, man, exists, living, nextF, tmp>>
+  /\ UNCHANGED <<mem, man, exists, living, nextF, tmp, pre>>
 
-Next == \E i \in Inst : Acquire(i) \/ Install(i) \/ ZombieCreate(i) \/ CreateFile(i) \/ Obsolete(i) \/ Collect(i) \/ Release(i)
+Next == \E i \in Inst : PreRead(i) \/ Acquire(i) \/ Install(i) \/ ZombieCreate(i) \/ CreateFile(i) \/ Obsolete(i) \/ Collect(i) \/ Release(i)
 Spec == Init /\ [][Next]_vars
 
 TypeOK == holder \in Inst \cup {"none"} /\ man \subseteq 1..MaxFiles /\ exists \subseteq 1..MaxFiles
